@@ -1,9 +1,117 @@
-(* C01 — iterative closest-nodes lookup.  Property theorems only.
-   Model: Model/Lookup.v.  (Proofs in progress: see Proofs/Lookup.v.) *)
-From SV Require Import Lib.Base Gen.LookupConsts Model.Lookup.
+(* C01 — iterative closest-nodes lookup.  Property theorems only; every proof is
+   [exact lemma].  Model: Model/Lookup.v, proofs: Proofs/Lookup.v.
+   The adversary is the arbitrary function [reply]. *)
+From SV Require Import Lib.Base Gen.LookupConsts Model.Lookup Proofs.Lookup.
+From Coq Require Import Sorting.Sorted.
 Local Open Scope N_scope.
 
 (* the numbers the property relies on, from the regenerated constants *)
 Theorem C01_constants :
   LK_ALPHA = 3 /\ LK_MAX_ITERATIONS = 20 /\ LK_MAX_CANDIDATE_NODES = 200 /\ 0 < LK_ALPHA.
 Proof. repeat split; reflexivity. Qed.
+
+(* 1. whatever peers reply, at most MAX_ITERATIONS * ALPHA requests are sent
+      (termination itself is structural: [loop] recurses on its fuel) *)
+Theorem C01_request_bound : forall keyof reply self selfs_marked selfs_all target count init,
+  (length (sent (lookup keyof reply self selfs_marked selfs_all target count init))
+   <= N.to_nat LK_MAX_ITERATIONS * N.to_nat LK_ALPHA)%nat.
+Proof. exact lookup_request_bound. Qed.
+
+(* 2. no peer is queried twice and the local node (under any of its ids) is never sent a request *)
+Theorem C01_no_self_no_dup : forall keyof reply self selfs_marked selfs_all target count init,
+  NoDup init -> (forall p, In p init -> ~ In p selfs_all) ->
+  incl selfs_marked selfs_all -> In self selfs_marked ->
+  let s := lookup keyof reply self selfs_marked selfs_all target count init in
+  NoDup (sent s) /\ forall p, In p (sent s) -> ~ In p selfs_all.
+Proof. exact lookup_no_self_no_dup. Qed.
+
+(* 3. the result: at most [count] distinct nodes, ascending by distance, each the local
+      node or a peer that answered during this lookup *)
+Theorem C01_result_wf : forall keyof reply self selfs_marked selfs_all target count init,
+  NoDup init -> (forall p, In p init -> ~ In p selfs_all) ->
+  incl selfs_marked selfs_all -> In self selfs_marked ->
+  let s := lookup keyof reply self selfs_marked selfs_all target count init in
+  (length (best s) <= count)%nat /\ NoDup (best s) /\
+  StronglySorted (fun a b => dist keyof target a <= dist keyof target b) (best s) /\
+  forall p, In p (best s) -> p = self \/ (In p (sent s) /\ reply p <> None).
+Proof. exact lookup_result_wf. Qed.
+
+(* 4. the result is the [count] closest among the local node and the peers that answered *)
+Theorem C01_best_is_closest : forall keyof reply self selfs_marked selfs_all target count init,
+  NoDup init -> (forall p, In p init -> ~ In p selfs_all) ->
+  incl selfs_marked selfs_all -> In self selfs_marked ->
+  let s := lookup keyof reply self selfs_marked selfs_all target count init in
+  forall p, (p = self /\ (0 < count)%nat) \/ (In p (sent s) /\ reply p <> None) ->
+    In p (best s) \/
+    (length (best s) = count /\ forall w, In w (best s) -> dist keyof target w <= dist keyof target p).
+Proof. exact lookup_best_is_closest. Qed.
+
+(* 5. unless the run was cut by a budget, no peer the lookup learned of (initial
+      candidates, or named in any reply) that is strictly closer than the farthest
+      returned node is left unqueried *)
+Theorem C01_complete : forall keyof reply self selfs_marked selfs_all target count init,
+  NoDup init -> (forall p, In p init -> ~ In p selfs_all) ->
+  incl selfs_marked selfs_all -> In self selfs_marked ->
+  let s := lookup keyof reply self selfs_marked selfs_all target count init in
+  budget_hit s = false ->
+  forall p, (In p init \/ exists q l, In q (sent s) /\ reply q = Some l /\ In p l) ->
+    In p (sent s) \/ In p selfs_all \/
+    (length (best s) = count /\ forall w, In w (best s) -> dist keyof target w <= dist keyof target p).
+Proof. exact lookup_complete. Qed.
+
+(* 6. full mesh: U is the set of all peers, the initial candidates are the [count]
+      closest of U, every member of U answers and names only members of U or the local
+      node, and the run is not budget-cut.  Then the result is exactly the [count]
+      closest of self :: U. *)
+Theorem C01_full_mesh_exact : forall keyof reply self selfs_marked selfs_all target count init U,
+  NoDup init ->
+  incl selfs_marked selfs_all -> In self selfs_marked ->
+  (forall u, In u U -> ~ In u selfs_all) ->
+  incl init U ->
+  (forall u m, In u U -> ~ In u init -> In m init -> dist keyof target m <= dist keyof target u) ->
+  length init = Nat.min count (length U) ->
+  (forall u, In u U -> exists l, reply u = Some l /\ forall x, In x l -> In x U \/ In x selfs_all) ->
+  let s := lookup keyof reply self selfs_marked selfs_all target count init in
+  budget_hit s = false ->
+  (forall w, In w (best s) -> In w (self :: U)) /\
+  (forall x, In x (self :: U) ->
+     In x (best s) \/
+     (length (best s) = count /\ forall w, In w (best s) -> dist keyof target w <= dist keyof target x)).
+Proof. exact lookup_full_mesh. Qed.
+
+(* The executable predicate [spec_ok] that the correspondence check evaluates on the
+   implementation's observed requests/result holds of the model's own run (count >= 1). *)
+Theorem C01_model_satisfies_spec_ok : forall keyof reply self selfs_marked selfs_all target count init,
+  (0 < count)%nat ->
+  NoDup init -> (forall p, In p init -> ~ In p selfs_all) ->
+  incl selfs_marked selfs_all -> In self selfs_marked ->
+  let s := lookup keyof reply self selfs_marked selfs_all target count init in
+  spec_ok keyof reply self selfs_all target count init (sent s) (best s) (budget_hit s) = true.
+Proof. exact lookup_spec_ok. Qed.
+
+(* [spec_ok] (not theorems 1-6) is too strong at count = 0: its "closest among the
+   answering peers" clause has no count = 0 escape, so it rejects the model's run as
+   soon as one peer answers.  Theorems 1-6 above hold for count = 0 as well. *)
+Theorem C01_spec_ok_count0_refuted : exists keyof reply self selfs_marked selfs_all target init,
+  NoDup init /\ (forall p, In p init -> ~ In p selfs_all) /\
+  incl selfs_marked selfs_all /\ In self selfs_marked /\
+  let s := lookup keyof reply self selfs_marked selfs_all target 0%nat init in
+  spec_ok keyof reply self selfs_all target 0%nat init (sent s) (best s) (budget_hit s) = false.
+Proof. exact spec_ok_count0_refuted. Qed.
+
+(* non-vacuity: 7 peers around node 0 (transport id 100); peer 4 is silent, peer 2
+   lies (names the requester's own id 0 and an unreachable id 7), target key 0, K = 3.
+   Requests go to 3,4 / 1,2,5 / 7; peer 6 is never queried (dominated); result = the 3
+   closest answering nodes. *)
+Example C01_example :
+  let keyof := assoc 0 [(0,50);(1,10);(2,20);(3,30);(4,40);(5,60);(6,70);(7,5)] in
+  let reply := assoc None [(1,Some [2;3]);(2,Some [1;7;0]);(3,Some [1;2;5]);(4,None);(5,Some [6]);(6,Some [1])] in
+  let s := lookup keyof reply 0 [0;100] [0;100] 0 3%nat [3;4] in
+  best s = [1;2;3] /\ sent s = [7;5;2;1;4;3] /\ budget_hit s = false /\
+  spec_ok keyof reply 0 [0;100] 0 3%nat [3;4] (sent s) (best s) (budget_hit s) = true.
+Proof. vm_compute. repeat split; reflexivity. Qed.
+
+(* the side conditions of the theorems are satisfiable by that example *)
+Example C01_example_hyps :
+  NoDup [3;4] /\ (forall p, In p [3;4] -> ~ In p [0;100]) /\ incl [0;100] [0;100] /\ In 0 [0;100].
+Proof. exact example_hyps. Qed.
